@@ -466,7 +466,11 @@ func (r *runner) handler(w *gldap.ResponseWriter, req *gldap.Request) {
 		if r.scen.Cfg["async_release"] == "1" {
 			// the handler goes on by itself a little later: nothing the harness does orders its Write with what the
 			// connection goroutine does meanwhile (race-detector scenarios)
-			time.Sleep(40 * time.Millisecond)
+			ms := 40
+			if v := r.scen.Cfg["async_ms"]; v != "" {
+				fmt.Sscan(v, &ms)
+			}
+			time.Sleep(time.Duration(ms) * time.Millisecond)
 		}
 	}
 	if p != nil && p.panic {
